@@ -318,7 +318,7 @@ func init() {
 			if tier == "quick" {
 				return map[string]any{"depth": "5 (empty), 4 (sparse-3)", "kinds": []string{"int", "string", "bool", "record (empty, depth 4)"}}
 			}
-			return map[string]any{"depth": "5 (empty), 4 (sparse-3), 3 (block-edge)", "kinds": []string{"int", "string", "bool", "record"}}
+			return map[string]any{"depth": "6 (empty), 5 (sparse-3), 3 (block-edge)", "kinds": []string{"int", "string", "bool", "record"}}
 		},
 		Units: func(tier string) (units []eng.Unit) {
 			for _, kd := range []string{"int", "string", "bool", "record"} {
@@ -327,7 +327,7 @@ func init() {
 					specs = []c19Spec{{kd, "empty", 4}}
 				}
 				if tier != "quick" {
-					specs = []c19Spec{{kd, "empty", 5}, {kd, "sparse-3", 4}, {kd, "block-edge", 3}}
+					specs = []c19Spec{{kd, "empty", 6}, {kd, "sparse-3", 5}, {kd, "block-edge", 3}}
 				}
 				for _, s := range specs {
 					s := s
